@@ -36,9 +36,10 @@ class Clock:
 
 class FrameRec:
     """One frame read by / written by the manager (as seen at the socket seam)."""
-    __slots__ = ("seq", "conn", "round", "hdr", "payload", "complete", "ok", "done_seq")
+    __slots__ = ("seq", "conn", "round", "hdr", "payload", "complete", "ok", "done_seq", "t")
 
     def __init__(self, seq, conn, rnd, hdr):
+        self.t = 0.0
         self.seq = seq
         self.conn = conn
         self.round = rnd
@@ -503,6 +504,7 @@ class SimNet:
                 seq = self.log("MGR_READ", sock.idx, sock.rd_count, h.msg_type, h.src_mod_id,
                                h.dest_mod_id, h.dest_host_id, h.num_data_bytes, h.send_time)
                 fr = FrameRec(seq, sock.idx, self.round, h)
+                fr.t = self.clock.now
                 self.reads.append(fr)
                 self.stats["frames_read"] += 1
                 sock.rd_frame = fr
@@ -561,6 +563,7 @@ class SimNet:
             seq = self.log("MGR_WRITE", sock.idx, h.msg_type, h.msg_count, h.src_mod_id,
                            h.dest_mod_id, h.dest_host_id, h.num_data_bytes, *sig)
             fr = FrameRec(seq, sock.idx, self.round, h)
+            fr.t = self.clock.now
             fr.payload = payload
             fr.complete = True
             sock.tx_frames.append(fr)
